@@ -14,6 +14,7 @@
     bit, for every TDH sequence (continuation TDHs included).
 -/
 import FastPasta.Model.Collector
+import FastPasta.Proofs.StateSrcTie
 namespace FastPasta
 namespace C20
 
@@ -149,6 +150,27 @@ theorem ob_unconfigured_silent (b : Barrel) (hb : b ≠ .inner) (lane : Nat) (d 
 /-! ### non-vacuity -/
 example : detectedPeriod 5 3560 = 9 := by decide
 example : (5 + 3564 - 3560) % 3564 = 9 := by decide
+
+
+/-! ### tie by translation (`Spec/StateSrcGen.lean`): the period check and the "previous internal-trigger TDH" bookkeeping are
+    the source's `TdhValidator::check_trigger_interval` / `matches_trigger_interval` and `TdhBuffer::replace` -/
+/-- for bunch crossings inside an orbit: the source's `check_trigger_interval` fails (with `[E45]`) exactly when the distance
+    modulo 3564 differs from the configured period -/
+theorem period_src_iff (cur prev : Bytes) (P : Nat) (hc : tdhBc cur ≤ 3563) (hp : tdhBc prev ≤ 3563) :
+    ((SrcState.TdhValidator.check_trigger_interval (SrcTie.tdhOf cur) (SrcTie.tdhOf prev) P).isErr = true ↔
+      (tdhBc cur + 3564 - tdhBc prev) % 3564 ≠ P) ∧
+    ((SrcState.TdhValidator.check_trigger_interval (SrcTie.tdhOf cur) (SrcTie.tdhOf prev) P).isErr = true →
+      (SrcState.TdhValidator.check_trigger_interval (SrcTie.tdhOf cur) (SrcTie.tdhOf prev) P).errStr.codes = [45]) := by
+  obtain ⟨h1, h2⟩ := SrcTie.trigger_interval_eq cur prev P
+  refine ⟨?_, h2⟩
+  rw [h1, period_eq _ _ hc hp]
+  simp
+
+/-- the source's TDH buffer after `replace` holds the model's (current, previous, previous-internal) triple -/
+theorem tdh_buffer_src (s : CdpSt) (w : Bytes) :
+    (SrcState.TdhBuffer.replace (SrcTie.bufOf s.tdh s.prevTdh s.prevInternalTdh) (SrcTie.tdhOf w)).2 =
+      SrcTie.bufOf (replaceTdh s w).tdh (replaceTdh s w).prevTdh (replaceTdh s w).prevInternalTdh :=
+  SrcTie.tdh_replace_eq s w
 
 end C20
 end FastPasta
